@@ -23,6 +23,9 @@ site: http://bugseng.com/products/ppl/ . */
 
 #include "ppl-config.h"
 #include "CO_Tree_defs.hh"
+#ifdef BUGSENG_PPL_VERIF
+#include "verif_hooks.hh"
+#endif
 
 namespace PPL = Parma_Polyhedra_Library;
 
@@ -818,6 +821,9 @@ PPL::CO_Tree::dump_subtree(tree_iterator itr) {
 
 void
 PPL::CO_Tree::rebuild_bigger_tree() {
+#ifdef BUGSENG_PPL_VERIF
+  PPL_VERIF_REACH(COTREE_BIGGER);
+#endif
   if (reserved_size == 0) {
     init(3);
     PPL_ASSERT(structure_OK());
@@ -868,6 +874,9 @@ PPL::CO_Tree::rebuild_bigger_tree() {
 PPL::CO_Tree::tree_iterator
 PPL::CO_Tree::rebalance(tree_iterator itr, const dimension_type key,
                         data_type_const_reference value) {
+#ifdef BUGSENG_PPL_VERIF
+  PPL_VERIF_REACH(COTREE_REBALANCE);
+#endif
   // Trees with reserved size 3 need not to be rebalanced.
   // This check is needed because they can't be shrunk, so they may violate
   // the density thresholds, and this would prevent the following while from
@@ -1042,6 +1051,9 @@ PPL::CO_Tree::redistribute_elements_in_subtree(const dimension_type root_index,
                                                const dimension_type key,
     data_type_const_reference value,
     bool add_element) {
+#ifdef BUGSENG_PPL_VERIF
+  PPL_VERIF_REACH(COTREE_REDISTRIBUTE);
+#endif
 
   // This is static and with static allocation, to improve performance.
   // sizeof_to_bits(sizeof(dimension_type)) is the maximum k such that
